@@ -18,7 +18,8 @@ namespace Mutiny.Ring
 
 /-- what an operation returns (compared verbatim with the implementation's result) -/
 inductive Res where
-  /-- `publish_movable` accepted: `Some(len_before+1)` -/
+  /-- `publish_movable` accepted: `Some(len_after)`, the length up to the published element as observed after the
+      publication -/
   | sent (lenAfter : Nat)
   /-- `publish_movable` rejected: `(None, Some(item))` -/
   | full
@@ -48,6 +49,9 @@ inductive Loc where
   | pRecede   (v id : Nat) (rsv : Bool) (w : Bool)
   | pWrite    (v id len : Nat)
   | pPublish  (v id len : Nat)
+  /-- `len_after_publishing`: load `head` again, after the publication (the length observed at claim time, `len`, is
+      no longer used: it may be out of date by then — see DESIGN.md, D5) -/
+  | pLen      (id : Nat)
   -- reservation API (`reserve_slot` … `try_send_reserved` / `try_cancel_slot_reserve`)
   /-- a reservation is outstanding (no call in progress) -/
   | rHold (id : Nat)
@@ -104,7 +108,7 @@ def step (s : St) (t : Nat) : St :=
   | .pLoadHead v id rsv =>
       if id - s.head < s.N then
         if rsv then setThr s t (.rRet id (.reserved (id % s.N) (id - s.head)))
-        else setThr s t (.pWrite v id (id - s.head + 1))
+        else setThr s t (.pWrite v id (id - s.head))
       else setThr s t (.pRecede v id rsv (decide (s.head + s.N ≤ s.enqTail)))
   -- `enqueuer_tail.compare_exchange(slot_id+1, slot_id)`
   | .pRecede v id rsv _ =>
@@ -114,8 +118,10 @@ def step (s : St) (t : Nat) : St :=
   | .pWrite v id len => setThr (setBuf s (id % s.N) v) t (.pPublish v id len)
   -- `tail.compare_exchange(slot_id, slot_id+1)` (spins on failure)
   | .pPublish v id len =>
-      if s.tail = id then setThr { s with tail := id + 1, accepted := s.accepted ++ [v] } t (.done (.sent len))
+      if s.tail = id then setThr { s with tail := id + 1, accepted := s.accepted ++ [v] } t (.pLen id)
       else s
+  -- `head.load()`; `max(1, (slot_id + 1 - head) as i32)`
+  | .pLen id => setThr s t (.done (.sent (max 1 (id + 1 - s.head))))
   -- `try_publish_leaked_internal_index`: CAS `tail` with the guessed id; re-guess from the lap of the reloaded tail
   | .rPub id idx g =>
       if s.tail = g then
@@ -204,6 +210,7 @@ def tagOf : Loc → Option (String × Nat)
   | .pRecede _ id _ _  => some ("am.p.recede", id)
   | .pWrite _ id _     => some ("am.p.write", id)
   | .pPublish _ id _   => some ("am.p.publish", id)
+  | .pLen id           => some ("am.p.len", id)
   | .rPub _ _ g        => some ("am.r.publish", g)
   | .rCan _ _ g        => some ("am.r.cancel", g)
   | .cFetch            => some ("am.c.fetch", 0)
